@@ -28,6 +28,18 @@ static SLOTS: AtomicUsize = AtomicUsize::new(0);
 
 thread_local! {
     static TID: Cell<u64> = const { Cell::new(u64::MAX) };
+    static TAG: Cell<u64> = const { Cell::new(0) };
+}
+
+/// Name the operation the calling thread is about to perform (recorded by [event_tagged]).
+pub fn set_tag(tag: u64) {
+    TAG.with(|t| t.set(tag));
+}
+
+/// Record an event whose first argument is the calling thread's current tag.
+pub fn event_tagged(what: &'static str) {
+    let tag = TAG.with(|t| t.get());
+    event(what, tag, 0, 0);
 }
 
 /// Name the calling thread in subsequent events.
